@@ -21,7 +21,7 @@ RULE = ('cases = (package, extinction law, A_V range, sources) drawn from the qu
 REQUIRED_BRANCHES = ['rebuilt_in_place', 'wav_filter_other_unit', 'pkg_v1_mJy', 'pkg_v1_Jy', 'pkg_cube', 'pkg_cube_memmap', 'range_end_zero', 'law_other_unit', 'clamp_low', 'clamp_high', 'interior', 'lo_eq_hi', 'limit_violated', 'limit_ok', 'flag4', 'flag0or9']
 ASSUMPTIONS = ['IEEE rounding is not modelled: comparison tolerance 1e-9 x condition number',
                'decisions closer than 1e-7 to their threshold are compared in relaxed mode']
-N = {'quick': 160, 'thorough': 3000}
+N = {'quick': 160, 'thorough': 12000}
 FLAGS = [0, 1, 2, 3, 4, 9]
 
 
